@@ -1,3 +1,3 @@
 (* C27 — all proofs. *)
 From SwayV Require Export C27.NumProofs C27.DivProofs C27.SqrtProofs C27.LogProofs C27.PowProofs C27.NarrowProofs
-  C27.U256Proofs C27.WrapProofs C27.CollProofs C27.BytesProofs.
+  C27.U256Proofs C27.WrapProofs C27.LogFullProofs C27.CollProofs C27.BytesProofs.
